@@ -90,6 +90,31 @@ type zzStmt struct {
 	table string
 	cols  []string
 	conds []zzCond
+	// direction of "num" in each "order by" clause, in textual order (true = desc)
+	numDesc []bool
+	limit1  bool
+}
+
+// zzOrders reads the direction of num in every ORDER BY clause of the text.
+func zzOrders(t []string) (dirs []bool, limit1 bool) {
+	for i := 0; i+1 < len(t); i++ {
+		if t[i] == "limit" && t[i+1] == "1" {
+			limit1 = true
+		}
+		if t[i] != "order" || t[i+1] != "by" {
+			continue
+		}
+		for j := i + 2; j < len(t); j++ {
+			if t[j] == "limit" || t[j] == ")" || t[j] == ";" || t[j] == "order" {
+				break
+			}
+			if t[j] == "num" {
+				dirs = append(dirs, j+1 < len(t) && t[j+1] == "desc")
+				break
+			}
+		}
+	}
+	return
 }
 
 func zzIsOp(c byte) bool { return c == '>' || c == '<' || c == '=' || c == '!' }
@@ -212,6 +237,7 @@ func zzParseSQL(sql string) zzStmt {
 	case t[0] == "set":
 		st.kind = "set"
 	}
+	st.numDesc, st.limit1 = zzOrders(t)
 	return st
 }
 
@@ -557,13 +583,17 @@ func (tx *zzTx) QueryRow(ctx context.Context, sql string, args ...any) pgx.Row {
 	case "select-latest":
 		// select num, hash from shovel.task_updates where <names> order by num desc limit 1
 		var best *zzCur
+		if len(st.numDesc) != 1 || !st.limit1 {
+			panic("unmodelled ordering of the position query: " + sql)
+		}
 		for i := range tx.db.pairs {
 			p := &tx.db.pairs[i]
 			if !zzPairMatches(p, st.conds, args) {
 				continue
 			}
 			for j := range p.cur {
-				if best == nil || p.cur[j].num > best.num {
+				// order by num desc|asc limit 1 (direction read from the text)
+				if best == nil || (st.numDesc[0] && p.cur[j].num > best.num) || (!st.numDesc[0] && p.cur[j].num < best.num) {
 					best = &p.cur[j]
 				}
 			}
@@ -576,14 +606,22 @@ func (tx *zzTx) QueryRow(ctx context.Context, sql string, args ...any) pgx.Row {
 		// per matching ig: its newest cursor row; of those the one with the smallest num
 		var best *zzCur
 		var count uint64
+		if len(st.numDesc) != 2 || !st.limit1 {
+			panic("unmodelled ordering of the dependency query: " + sql)
+		}
 		for i := range tx.db.pairs {
 			p := &tx.db.pairs[i]
 			if !zzPairMatches(p, st.conds, args) || len(p.cur) == 0 {
 				continue
 			}
 			count++
-			top := &p.cur[len(p.cur)-1]
-			if best == nil || top.num < best.num {
+			// distinct on (ig_name) ... order by ig_name, num <dir>: the first row per integration
+			top := &p.cur[len(p.cur)-1] // cursor rows are ascending
+			if !st.numDesc[0] {
+				top = &p.cur[0]
+			}
+			// outer: order by num <dir> limit 1
+			if best == nil || (!st.numDesc[1] && top.num < best.num) || (st.numDesc[1] && top.num > best.num) {
 				best = top
 			}
 		}
